@@ -457,6 +457,29 @@ pub fn build_transport(node: usize, board: &Board, key: &Keypair) -> libp2p_core
     )
 }
 
+/// Like [`build_transport`], but every connection — inbound ones included — is upgraded in the *dialer* role
+/// (multistream-select dialer, outbound plaintext, yamux client). This is the peer of a dial made with
+/// `DialOpts::override_role()` (hole punching: both ends dial, one of them takes the listener role for the upgrade).
+pub fn build_transport_reversed(node: usize, board: &Board, key: &Keypair) -> libp2p_core::transport::Boxed<(PeerId, StreamMuxerBox)> {
+    use libp2p_core::upgrade::{OutboundConnectionUpgrade, UpgradeInfo};
+    let b = board.clone();
+    let key = key.clone();
+    Transport::boxed(SimTransport::new(node, board.clone()).and_then(move |io, _cp| {
+        let key = key.clone();
+        let b = b.clone();
+        async move {
+            let other = |e: String| io::Error::other(e);
+            let pt = libp2p_plaintext::Config::new(&key);
+            let (proto, io) = multistream_select::dialer_select_proto(io, pt.protocol_info(), Version::V1).await.map_err(|e| other(e.to_string()))?;
+            let (peer, io) = pt.upgrade_outbound(io, proto).await.map_err(|e| other(e.to_string()))?;
+            let ym = libp2p_yamux::Config::default();
+            let (proto, io) = multistream_select::dialer_select_proto(io, ym.protocol_info(), Version::V1).await.map_err(|e| other(e.to_string()))?;
+            let mux = ym.upgrade_outbound(io, proto).await.map_err(|e| other(e.to_string()))?;
+            Ok::<_, io::Error>((peer, StreamMuxerBox::new(FaultMuxer { inner: mux, node, board: b })))
+        }
+    }))
+}
+
 /// Passes everything through to the real muxer; outbound substreams can be armed (by
 /// `Board::fail_next_outbound_streams`) to fail with an I/O error on first use.
 pub struct FaultMuxer<M> {
